@@ -34,7 +34,7 @@ TEXT = {
  'C04': ('model_checking', 'general_instant only: the real access_lock/access_unlock (with nesting, also two nested pairs inside one outer section), flip_and_wait/check_grace_period, synchronize(), retire_ptr() and the real cds::threading::Manager thread records; reader(s) || updater(s) (2-3 threads, 1-2 updates/reads each) under every schedule with at most K-1 context switches: an object read inside a read-side critical section is never disposed before the reader leaves the outermost section; general_buffered (harness exists, no verdict within 50 min), general_threaded and signal_buffered are outside the claim'),
  'C05': ('model_checking', 'same queries as C04, general_instant only: every retired object is disposed exactly once - before retire_ptr() returns and (still exactly once) by the time Destruct() returns - and nothing that was not retired is disposed; the buffered, threaded and signal flavours are outside the claim'),
  'C24': ('model_checking', 'all schedules with at most K-1 context switches of 2-3 threads x 1-2 solver-chosen allocate/deallocate steps on the real vyukov_queue_pool, lazy_vyukov_queue_pool, bounded_vyukov_queue_pool and pool_allocator (capacity 2, driven past capacity where the pool allows it) from a solver-chosen pre-state of held objects; ghost set of allocated objects (no double hand-out), quiescent re-allocation of every pooled object'),
- 'C21': ('model_checking', 'all schedules with at most K-1 context switches of 2 threads x 1-2 get/put steps (3 threads x 1 in the thorough tier) on the real FreeList, TaggedFreeList and CachedFreeList with 2 nodes (CachedFreeList: both harness threads hash to the same cache cell, so put||put, put||get and get||get race for one cell); initial ownership chosen by the solver; ghost-ownership oracle (no double hand-out), final drain (no node lost)'),
+ 'C21': ('model_checking', 'all schedules with at most K-1 context switches of 2 threads x 1-2 get/put steps (3 threads x 1 in the thorough tier) on the real FreeList, TaggedFreeList and CachedFreeList (over FreeList and over TaggedFreeList) with 2 nodes (CachedFreeList: both harness threads hash to the same cache cell, so put||put, put||get and get||get race for one cell); initial ownership chosen by the solver; ghost-ownership oracle (no double hand-out), final drain (no node lost)'),
  'C12': ('model_checking', 'sequential: every script of 5-6 solver-chosen API calls with solver-chosen batch/record sizes on the real WeakRingBuffer<T> (capacity 4, static and dynamic buffer) and WeakRingBuffer<void> (32 bytes) against a FIFO/record model incl. the exact refusal conditions and record bytes; concurrent: producer || consumer, every schedule with at most K-1 context switches, history linearizable to the bounded FIFO (batch) / record FIFO'),
  'C07': ('model_checking', 'all schedules with at most K-1 context switches of 2-3 threads x 1-2 solver-chosen enqueue/dequeue operations on the real container:: and intrusive::VyukovMPMCCycleQueue (capacity 2-8, pre-rotated = wrapped around, pre-filled by solver choice; static/dynamic buffer; item counter; single-consumer front()/pop_front(); a value_cleaner that overwrites the cell), history checked for linearizability to a bounded FIFO inside the harness'),
 }
